@@ -36,6 +36,9 @@ def design_models(chk, thorough):
         r = lib.tlc_design(mod, cfg, expect_actions=acts, tag=cfg[:-4], timeout=3000)
         chk.add_model(f"{mod}/{cfg[:-4]}", r, what)
     lib.tlc_expect_violation("GenDFS", "GenDFS_unfair.cfg", "Returns", tag="gduf")  # the liveness property is not vacuous
+    # gen_wilson has NO step bound: "always returns" is false even under weak fairness (a walk may erase its own loops for ever);
+    # NoTrap / TreeGrows / CommitShrinks are what the models above establish, probability-one termination is C19's absorption sum
+    lib.tlc_expect_violation("GenWilson", "GenWilson_walksforever.cfg", "AlwaysReturns", tag="gwwf")
 
 
 # ------------------------------------------------------------------------------------ jobs
